@@ -8,8 +8,9 @@ CONSTANTS
   MaxSteps = 6
   Modes = {"normal", "coro"}
   Typed = FALSE
-  Ops = {"ConstructEmpty", "MoveConstruct", "AddHandle", "AddTo", "MergeShl", "MoveAssign", "Pop", "Clear", "Destroy", "CoAwait"}
+  Ops = {"ConstructEmpty", "ConstructSelf", "AddSelf", "Yield", "MoveConstruct", "AddHandle", "AddTo", "MergeShl", "MoveAssign", "Pop", "Clear", "Destroy", "CoAwait"}
+  Fixed = TRUE
   Targets = {3, 6, 12, 24}
-INVARIANTS TypeOK RepOK Conservation NoDoubleResume NoLeak
-PROPERTIES InlineNoAlloc MovedFromIsEmpty EmptyResumesNothing ValuePreserved ResumeOrder QueueFIFO
+INVARIANTS TypeOK RepOK NoDoubleResume Conservation NoLeak
+PROPERTIES InlineNoAlloc MovedFromIsEmpty EmptyResumesNothing ValuePreserved ReadsAgree ResumeOrder QueueFIFO
 CHECK_DEADLOCK FALSE
